@@ -238,3 +238,21 @@ package raftpb
 //@ modifies m.refCount, m.compactor
 //@ func (m *Snapshot) Unref [C19 C08]
 //@ trusted drops a reference (compacts the record's files when it was the last one); the record itself is untouched
+
+// ---------------------------------------------------------------- the hand-written Entry decoder never reads outside its input (C13)
+// frame check: whatever bytes arrive (truncated, corrupt, hostile), decoding an Entry either fails with an
+// error or consumes a prefix of the input -- it never indexes past the buffer (no contract on the decoded
+// values: the byte-level round trip is outside what the Int-mode engine decides)
+//@ func (m *Entry) unmarshal [C13]
+//@ noframe
+//@ requires len(data) < 4611686018427387904
+//@ ensures result1 == nil ==> 0 < result0 && result0 <= len(data)
+//@ loop 1 invariant i >= 1 && i < len(data)
+//@ loop 2 invariant i >= 1 && i < len(data)
+//@ loop 3 invariant i >= 1 && i < len(data)
+//@ loop 4 invariant i >= 1 && i < len(data)
+//@ loop 5 invariant i >= 1 && i < len(data)
+//@ loop 6 invariant i >= 1 && i < len(data)
+//@ loop 7 invariant i >= 1 && i < len(data)
+//@ loop 8 invariant i >= 1 && i < len(data)
+//@ loop 9 invariant i >= 1 && i <= len(data)
